@@ -49,6 +49,10 @@ func writeEvidence(env *Env, chk *Check, res *Result, wall time.Duration, machin
 		return err
 	}
 	dir := filepath.Join(env.Root, "evidence")
+	if os.Getenv("VERIF_DEV_REPO") != "" || os.Getenv("VERIF_DEV_SKIP_DESIGN") != "" {
+		// development runs (another checkout, designs skipped) are not evidence about /repo
+		dir = filepath.Join(env.Root, "evidence-dev")
+	}
 	os.MkdirAll(dir, 0o755)
 	return os.WriteFile(filepath.Join(dir, chk.ID+".json"), b, 0o644)
 }
